@@ -865,6 +865,11 @@ type NegateNode struct {
 }
 
 func (n *NegateNode) String() string {
+	switch n.Arg.(type) {
+	case *IntNode, *FloatNode:
+		// "-3" would parse back as a negative literal, not as a negation.
+		return "-(" + n.Arg.String() + ")"
+	}
 	return "-" + operandString(n.Arg)
 }
 
